@@ -9,6 +9,7 @@ package main
 // one-byte instruction).
 
 import (
+	"encoding/json"
 	"fmt"
 	"go/ast"
 	"go/parser"
@@ -68,11 +69,28 @@ type widthAnalyzer struct {
 	notes   []string
 }
 
-func threadSource() string {
-	// honour a deliberate change under test (VERIF_OVERLAY is only consulted at build time by bin/check; the
-	// prebuild step writes the file it built from here)
-	return "/repo/vm/thread.go"
+// overlayOf returns the file the binary was built from: a deliberate change under test ($VERIF_OVERLAY, the
+// go build -overlay file bin/check used) replaces files of /repo.
+func overlayOf(path string) string {
+	ov := os.Getenv("VERIF_OVERLAY")
+	if ov == "" {
+		return path
+	}
+	b, err := os.ReadFile(ov)
+	if err != nil {
+		return path
+	}
+	var o struct{ Replace map[string]string }
+	if json.Unmarshal(b, &o) != nil {
+		return path
+	}
+	if r, ok := o.Replace[path]; ok && r != "" {
+		return r
+	}
+	return path
 }
+
+func threadSource() string { return overlayOf("/repo/vm/thread.go") }
 
 func loadVMModel(threadGo string) (*vmModel, error) {
 	wa := &widthAnalyzer{fset: token.NewFileSet(), methods: map[string]*ast.FuncDecl{}, reads: map[string]int{}}
@@ -90,7 +108,7 @@ func loadVMModel(threadGo string) (*vmModel, error) {
 		if !strings.HasSuffix(n, ".go") || strings.HasSuffix(n, "_test.go") || n == "thread_debug.go" || n == "verif_probe.go" {
 			continue
 		}
-		path := filepath.Join(dir, n)
+		path := overlayOf(filepath.Join(dir, n))
 		if n == "thread.go" {
 			path = threadGo
 		}
